@@ -90,6 +90,9 @@ class MultiPaxosNode(Entity):
         # Phase 1 state
         self._phase1_responses: dict[int, list[dict]] = {}
 
+        # Accepts that arrived before an earlier slot (network reordering)
+        self._held_accepts: dict[int, Event] = {}
+
         # Heartbeat event
         self._heartbeat_event: Event | None = None
 
@@ -313,6 +316,11 @@ class MultiPaxosNode(Entity):
         self._current_ballot = ballot
         self._leader = ballot.node_id
 
+        if slot > self._log.last_index + 1:
+            # A later slot overtook an earlier one: hold it until the gap closes
+            self._held_accepts[slot] = event
+            return []
+
         # Append to log (truncate conflicting entries)
         if slot > self._log.last_index:
             self._log.append(ballot.number, command)
@@ -337,7 +345,11 @@ class MultiPaxosNode(Entity):
             },
             daemon=True,
         )
-        return [accepted]
+        events = [accepted]
+        held = self._held_accepts.pop(slot + 1, None)
+        if held is not None:
+            events.extend(self._handle_accept(held))
+        return events
 
     def _handle_accepted(self, event: Event) -> list[Event]:
         metadata = event.context.get("metadata", {})
